@@ -88,6 +88,9 @@ def Respects (g : Deps) (l : List Nat) : Prop := respectsFrom g [] l = true
 structure Ident where
   name : String
   pkgLevel : Bool := true
+  /-- the identifier stands for a method *expression* `T.m` / `(*T).m` (the method as a function
+      with the receiver as first argument), not for a method selected on a value (`t.m`, `t.m()`) -/
+  mexpr : Bool := false
   deriving DecidableEq, Repr
 
 /-- one initialisation expression; it logs `label` when evaluated. `label = ""`: the expression is
@@ -173,6 +176,20 @@ inductive CollectSkip where
   | other (text : String)
   deriving DecidableEq, Repr
 
+/-- which selector nodes resolved to a method of a source type `matchSelectorMethod` (interp/cfg.go,
+    branch `if m, lind := n.typ.lookupMethod(name); m != nil`) tags with `n.action = aGetMethod` —
+    the tag `getVarDependencies` looks for -/
+inductive MethodTag where
+  /-- before the test `n.child[0].isType(sc)`: method expressions and methods with receiver -/
+  | both
+  /-- only in the "method with receiver" branch -/
+  | recvOnly
+  /-- only in the "method as a function with receiver in 1st argument" branch -/
+  | exprOnly
+  | none
+  | other (text : String)
+  deriving DecidableEq, Repr
+
 /-- Facts read from `getVarDependencies` (interp/cfg.go), from the `defineXStmt` case of `gta`
     (interp/gta.go) and from the `token.VAR` case of `ast` (interp/ast.go), regenerated by the
     extractor. Each is a decision one of the repairs of round 3 introduced; the record of the code
@@ -197,6 +214,8 @@ structure DepFacts where
   splitPaired : Bool
   /-- `genGlobalVarDecl`: the specifications for which `getVarDependencies` is not called -/
   collectSkip : CollectSkip
+  /-- `matchSelectorMethod`: which method selectors carry the action `aGetMethod` -/
+  methodTag : MethodTag
   deriving DecidableEq, Repr
 
 /-- `splitVarSpecs` (interp/ast.go) on one specification: `a, b = x, y` becomes `a = x`, `b = y`;
@@ -213,7 +232,7 @@ def Pkg.seenBy (p : Pkg) (d : DepFacts) : Pkg := { p with vars := specsY d p.var
 
 /-- the identifiers `getVarDependencies` meets when it walks the specification: the declared
     names first, then those of the initialisation expressions -/
-def VarSpec.walk (v : VarSpec) : List Ident := v.names.map (fun n => ⟨n, true⟩) ++ v.ids
+def VarSpec.walk (v : VarSpec) : List Ident := v.names.map (fun n => ⟨n, true, false⟩) ++ v.ids
 
 /-- the package scope after `gta`: `sc.sym[name]` was written by every specification declaring
     `name`, in source order, so the last one stays (only `_` can be declared twice). Index and
@@ -254,11 +273,19 @@ def resolveVar (d : DepFacts) (vars : List VarSpec) (id : Ident) : Option Nat :=
        | none => none)
     else none
 
+/-- the selector node of this reference to a method carries `aGetMethod` -/
+def tagged (d : DepFacts) (id : Ident) : Bool :=
+  match d.methodTag with
+  | .both => true
+  | .recvOnly => !id.mexpr
+  | .exprOnly => id.mexpr
+  | _ => false
+
 /-- the identifier refers to a declared function or method whose declaration `getVarDependencies`
     goes on to walk -/
 def follows (d : DepFacts) (funcs : List Func) (id : Ident) : Bool :=
   id.pkgLevel && (match funcs.find? (fun f => f.name == id.name) with
-    | some g => if g.meth then d.followMethods else d.followFuncs
+    | some g => if g.meth then d.followMethods && tagged d id else d.followFuncs
     | none => false)
 
 /-- `n.Walk(visit, nil)` over a list of sibling identifiers, threading the `seen` set -/
